@@ -488,8 +488,8 @@ def run_plan(plan, stats=None):
     sim._clk_cycle = cycle_with_snapshot
     import types
     ref = types.SimpleNamespace(rec=pre, tags=tags)
-    order = hw.allLeaves()                  # the order in which the simulator registers (and clocks) the leaves
-    if not (order.index(pb) < order.index(wf) < order.index(pa)):
+    order = list(top.children.values())     # the order in which the simulator registers (and clocks) the children of the block
+    if not (order.index(pb) < order.index(host if host is not None else wf) < order.index(pa)):
         raise RuntimeError('harness: probes do not bracket the Waveform in the leaf order')
     for drv in sim.clockDrivers.values():
         if pb in drv.clockables and wf in drv.clockables:
